@@ -199,6 +199,7 @@ def run(tier):
     rule_R10(res, prog)
     rule_R11(res, prog)
     rule_R12(res, prog)
+    rule_R13(res, prog)
     return res.finish()
 
 
@@ -971,4 +972,58 @@ def rule_R12(res, prog):
                                                             ("`memcmp(subject CN, issuer CN) == 0`", mem_eq)) if not have)),
                          file=fn.relfile, line=ln)
         res.instance(rid, "%s:%s %s into sigHash only for self-issued certificates (%s off)" % (fn.name, ln, call["fn"], sw), ok, finding=f_)
+    res.floor(rid, 1)
+
+
+def rule_R13(res, prog):
+    """'inside its validity period now' rests on the date parser: RFC 5280 4.1.2.5.1 - a UTCTime year YY means 19YY when
+    YY >= 50 and 20YY when YY < 50.  In parsedate_zulu the branch that moves a two-digit year into the 2000s (`year += 100`)
+    is taken exactly for year < 50; the constant and the direction are compared with the RFC, whatever form the test has."""
+    import re
+    from sa import cfgutil as cu
+    rid = "C03.R13"
+    res.rule(rid, "UTCTime two-digit years: exactly the years below 50 are moved to the 2000s (RFC 5280 4.1.2.5.1)")
+    fn = prog.fn("parsedate_zulu")
+    n = 0
+    for b in fn.blocks:
+        t = b.get("term")
+        if t is None or "c" not in t or len(b["succ"]) != 2:
+            continue
+        for k in (0, 1):
+            sb = b["succ"][k].get("b")
+            if sb is None:
+                continue
+            adds = False
+            for i, ln, x in cu.block_exprs(fn.bmap[sb]):
+                for m in walk(x):
+                    if m.get("k") == "bin" and m["op"] == "+=" and (strip(m["l"]) or {}).get("n") == "year" and \
+                            (strip(m["r"]) or {}).get("k") == "int" and strip(m["r"])["v"] == 100:
+                        adds = True
+            if not adds:
+                continue
+            n += 1
+            atoms = [(txt, tr) for (txt, tr, nd) in cu._cond_atoms(t["c"], k == 0)]
+            # the set of two-digit years for which this edge is taken
+            taken = set(range(100))
+            decided = True
+            for (txt, tr) in atoms:
+                mm = re.match(r"^\(year (<|<=|>|>=|==|!=) (\d+)\)$", txt)
+                if not mm:
+                    decided = False
+                    continue
+                op, kk = mm.group(1), int(mm.group(2))
+                ev = {"<": lambda y: y < kk, "<=": lambda y: y <= kk, ">": lambda y: y > kk, ">=": lambda y: y >= kk,
+                      "==": lambda y: y == kk, "!=": lambda y: y != kk}[op]
+                taken = set(y for y in taken if ev(y) == tr)
+            ok = decided and taken == set(range(50))
+            f_ = None
+            if not ok:
+                wrong = sorted(taken ^ set(range(50)))
+                f_ = Finding(PROP, rid, fn.name, "UTCTime century pivot differs from RFC 5280",
+                             "%s:%s parsedate_zulu(): two-digit years %s are %s the 2000s (condition %s): RFC 5280 reads YY >= 50 as 19YY and "
+                             "YY < 50 as 20YY, so a certificate whose notAfter year is one of them is judged against a date a century off "
+                             "(an expired certificate validates, or a valid one is refused)" % (
+                                 fn.relfile, t["ln"], wrong[:6], "moved to" if any(y >= 50 for y in wrong) else "kept out of",
+                                 [a for a in atoms]), file=fn.relfile, line=t["ln"])
+            res.instance(rid, "parsedate_zulu:%s year += 100 exactly for YY in 0..49" % t["ln"], ok, finding=f_)
     res.floor(rid, 1)
